@@ -101,6 +101,10 @@ type hTx struct {
 	Mut      string `json:"mut,omitempty"`    // mutation applied after signing
 	Mode     string `json:"mode,omitempty"`   // "" deliver, check, simulate
 	Replay   int    `json:"replay,omitempty"` // >0: resend the n-th most recent committed tx instead
+	// AsOwner: for governance messages the sender is resolved at execution time to the pool key that currently
+	// owns the parameter (param), the upgrade entry (upgrade) or the DAO (dao) - whoever that is after any number
+	// of hand-overs; From is used when no pool key owns it
+	AsOwner bool `json:"as_owner,omitempty"`
 }
 
 type hQuery struct {
